@@ -169,6 +169,25 @@ impl JoinNumericPlugin {
     }
 }
 
+/// Verification hook: runs the numeral parser over a string and reports the parser state after
+/// every character (until the first refused one) and the outcome of `done`.
+#[cfg(sudachi_verif)]
+pub fn verif_numeric_parse(text: &str) -> serde_json::Value {
+    let mut parser = NumericParser::new();
+    let mut steps = Vec::new();
+    for c in text.chars() {
+        let ok = parser.append(&c);
+        steps.push(serde_json::json!({"c": c as u32, "ok": ok, "st": parser.verif_state()}));
+        if !ok {
+            return serde_json::json!({"steps": steps, "accepted": false, "err": format!("{:?}", parser.error_state), "norm": ""});
+        }
+    }
+    let accepted = parser.done();
+    let st = parser.verif_state();
+    let norm = if accepted { parser.get_normalized() } else { String::new() };
+    serde_json::json!({"steps": steps, "accepted": accepted, "err": format!("{:?}", parser.error_state), "norm": norm, "done": st})
+}
+
 impl PathRewritePlugin for JoinNumericPlugin {
     fn set_up(
         &mut self,
